@@ -133,7 +133,7 @@ class ExtendedEOF(EOF):
         X_extended = xr.concat(X_extended, dim="embedding")
         n_samples_cut = (embedding - 1) * tau
         X_extended = X_extended.isel(
-            {self.sample_name: slice(None, -n_samples_cut)}
+            {self.sample_name: slice(None, -n_samples_cut or None)}
         )
         X_extended.coords.update({"embedding": shift})
 
